@@ -6,11 +6,11 @@ CTX = 300
 PROBE_CTX = 2000
 
 
-def blocking_cfg(name, kinds, leak, wakes, held, buffered=True):
+def blocking_cfg(name, kinds, leak, wakes, held, buffered=True, hook_under_lock=False):
     b = lambda x: "TRUE" if x else "FALSE"
     with open(os.path.join(SPEC, name), "w") as f:
-        f.write("SPECIFICATION Spec\nCONSTANTS\n  Kinds <- %s\n  LeakRLock = %s\n  CloseWaitWakes = %s\n  MuHeldDuringWait = %s\n  ResultChBuffered = %s\n  MaxMeta = 2\n"
-                "INVARIANTS NoLockLeak NoOverrun NoStuckHandOver\nPROPERTIES EveryCallReturns\nCHECK_DEADLOCK FALSE\n" % (kinds, b(leak), b(wakes), b(held), b(buffered)))
+        f.write("SPECIFICATION Spec\nCONSTANTS\n  Kinds <- %s\n  LeakRLock = %s\n  CloseWaitWakes = %s\n  MuHeldDuringWait = %s\n  ResultChBuffered = %s\n  HookUnderLock = %s\n  MaxMeta = 2\n"
+                "INVARIANTS NoLockLeak NoOverrun NoStuckHandOver NoHookUnderLock\nPROPERTIES EveryCallReturns\nCHECK_DEADLOCK FALSE\n" % (kinds, b(leak), b(wakes), b(held), b(buffered), b(hook_under_lock)))
     return name
 
 
@@ -162,6 +162,15 @@ def family(quick):
         tail = probes() if name != "closeConn" else [{"a": "quiesce", "ms": 50}]
         scs.append({"id": "C08/lateAck/%s" % name, "kind": "iscp", "conn": dict(conn),
                     "steps": late + [call, {"a": "ackMode", "mode": "auto"}, {"a": "sleep", "ms": 50}] + tail})
+    # (8) user hooks that call back into their own stream (State()): hooks run without any library lock, every call stays bounded
+    for k, pol in enumerate(({"k": "none"}, {"k": "immediate"}, {"k": "size", "size": 8})):
+        steps = base + [{"a": "openUp", "obj": "U1", "qos": "reliable", "policy": pol, "closeTimeoutMs": 400, "hookReenter": True, "must": True},
+                        {"a": "ackMode", "mode": "auto"}]
+        for t in (1, 2, 3):
+            steps += [{"a": "write", "g": "T", "obj": "U1", "id": "A", "pts": [[t, 8]], "ctxMs": CTX, "wait": True},
+                      {"a": "flush", "g": "T", "obj": "U1", "ctxMs": CTX, "wait": True}, {"a": "state", "obj": "U1"}]
+        steps += [{"a": "sleep", "ms": 60}, {"a": "closeUp", "g": "T", "obj": "U1", "ctxMs": CTX, "wait": True}]
+        scs.append({"id": "C08/hookReenter/%d" % k, "kind": "iscp", "conn": dict(conn), "steps": steps + probes()})
     return scs
 
 
@@ -185,6 +194,12 @@ def run():
     os.remove(os.path.join(SPEC, cfg))
     if r.violated not in ("NoStuckHandOver", "NoOverrun"):
         raise Inconclusive("Blocking model with ResultChBuffered = FALSE should violate NoStuckHandOver / NoOverrun, TLC says %s" % (r.violated or r.error or "nothing"))
+    # sensitivity: a user hook called from the flush critical section deadlocks as soon as it calls back into the stream
+    cfg = blocking_cfg("Blocking_c08_hook.cfg", "KindsC", leak=False, wakes=True, held=False, hook_under_lock=True)
+    r = ctx.l1("Blocking", cfg, workers=8, timeout=600, must_hold=False)
+    os.remove(os.path.join(SPEC, cfg))
+    if r.violated not in ("NoHookUnderLock", "NoOverrun"):
+        raise Inconclusive("Blocking model with HookUnderLock = TRUE should violate NoHookUnderLock / NoOverrun, TLC says %s" % (r.violated or r.error or "nothing"))
     if not quick:
         # sanity of the model: the as-coded variants must violate the properties (the defects repaired in /repo)
         for name, kinds in (("A", "KindsA"), ("B", "KindsB")):
